@@ -178,8 +178,10 @@ bool Units::UnitsImpl::performTestWithHistory(History &history, const UnitsConst
         }
 
         history.push_back(h);
+        bool result = importedUnits->pFunc()->performTestWithHistory(history, importedUnits, type);
+        history.pop_back();
 
-        return importedUnits->pFunc()->performTestWithHistory(history, importedUnits, type);
+        return result;
     }
 
     // Ordinary units may reference each other in a cycle: such units are not defined, but there is nothing to resolve in them.
